@@ -344,6 +344,91 @@ theorem every_measurement_reaches_each_stream_once (L : Nat) (tps : List Tempora
   | none => simp
   | some m => simpa using hall m (List.mem_of_getElem? hm)
 
+/-- Streams are independent — the justification for judging concurrent measurements stream by stream (gate leg):
+after any sequence of measurements on a pipeline, the state of stream `i` is the stream itself run over the
+SUBSEQUENCE of the measurements whose instrument lists `i`, in their order; nothing else about the history matters.
+Hence two histories that present the same measurements to stream `i` in the same order leave it in the same state,
+whatever order they present them in to the other streams: if two concurrent measurements take effect in different
+orders in different aggregate functions (each has its own lock), every stream still behaves as in SOME sequential
+history, and the per-stream theorems above apply to it. -/
+theorem stream_sees_only_its_own_measurements (p : Pipe) (hp : ∀ m ∈ p.meas, m.Nodup)
+    (ops : List (Nat × CSet × Int)) (i : Nat) :
+    (ops.foldl (fun p o => p.measure o.1 o.2.1 o.2.2) p).streams[i]? =
+      (p.streams[i]?).map fun s =>
+        (ops.filter fun o => decide (i ∈ (p.meas[o.1]?).getD [])).foldl (fun s o => s.measure o.2.1 o.2.2) s := by
+  induction ops generalizing p with
+  | nil => cases h : p.streams[i]? <;> simp [h]
+  | cons o ops ih =>
+    have hnd : ((p.meas[o.1]?).getD []).Nodup := by
+      cases hm : p.meas[o.1]? with
+      | none => simp
+      | some m => simpa using hp m (List.mem_of_getElem? hm)
+    have hmeas : (p.measure o.1 o.2.1 o.2.2).meas = p.meas := rfl
+    simp only [List.foldl_cons]
+    rw [ih (p.measure o.1 o.2.1 o.2.2) (by rw [hmeas]; exact hp), hmeas,
+      measure_reaches_each_stream_once p o.1 o.2.1 o.2.2 hnd i]
+    by_cases hi : i ∈ (p.meas[o.1]?).getD []
+    · simp only [hi, if_true, List.filter_cons, decide_true, List.foldl_cons]
+      cases p.streams[i]? <;> simp
+    · simp only [hi, if_false, List.filter_cons, decide_false]
+      rfl
+
+/-- … in particular: histories that agree on the subsequence seen by stream `i` agree on stream `i`. -/
+theorem per_stream_linearisation_sound (p : Pipe) (hp : ∀ m ∈ p.meas, m.Nodup)
+    (ops ops' : List (Nat × CSet × Int)) (i : Nat)
+    (h : (ops.filter fun o => decide (i ∈ (p.meas[o.1]?).getD [])) =
+         (ops'.filter fun o => decide (i ∈ (p.meas[o.1]?).getD []))) :
+    (ops.foldl (fun p o => p.measure o.1 o.2.1 o.2.2) p).streams[i]? =
+    (ops'.foldl (fun p o => p.measure o.1 o.2.1 o.2.2) p).streams[i]? := by
+  rw [stream_sees_only_its_own_measurements p hp ops i, stream_sees_only_its_own_measurements p hp ops' i, h]
+
+/-- A view only ever affects instruments it matches on EVERY given criterion — name (exact or wildcard), description,
+kind, unit and instrumentation scope (name, version, schema URL), in the exact-name and in the wildcard branch of
+`NewView` alike:
+(1) `matches` holds iff the view is valid and every given criterion holds; in particular a scope criterion that
+    differs from the instrument's meter makes the view not match, whatever the name pattern;
+(2) resolving an instrument against `views` is resolving it against the views that match it — all others are
+    irrelevant (they cannot drop it, rename it, filter its attributes or change its aggregation);
+(3) hence an instrument that no view matches gets exactly what it gets without any view: the default stream under
+    its own name, with NO attribute filter and the reader's default aggregation (`mkAgg L i none`) when that stream
+    is new. -/
+theorem view_only_affects_matching_instruments (L : Nat) (views : List View) (j : Nat) (i : Inst) (S : List StreamSt) :
+    (∀ v : View, v.matches j i = true ↔
+      (v.valid = true ∧ v.pat.matches j = true ∧ critOK v.desc i.desc = true ∧ v.kindOK i = true ∧
+       critOK v.unit i.unit = true ∧ critOK v.scopeName (scopeAttrs i.scope).1 = true ∧
+       critOK v.scopeVersion (scopeAttrs i.scope).2.1 = true ∧
+       critOK v.scopeSchema (scopeAttrs i.scope).2.2 = true)) ∧
+    (∀ v : View, ∀ n, v.scopeName = some n → n ≠ (scopeAttrs i.scope).1 → v.matches j i = false) ∧
+    insertInstrument L views j i S = insertInstrument L (views.filter fun v => v.matches j i) j i S ∧
+    ((∀ v ∈ views, v.matches j i = false) →
+      insertInstrument L views j i S = insertInstrument L [] j i S ∧
+      (findKey S (streamKey i (Name.inst j)) = none →
+        (insertInstrument L views j i S).1 =
+          S ++ [{ key := streamKey i (Name.inst j), name := Name.inst j, float := i.float, filter := none,
+                  agg := mkAgg L i none }])) := by
+  refine ⟨?_, ?_, insertInstrument_filter L views j i S, ?_⟩
+  · intro v
+    simp only [View.matches, View.scopeOK, Bool.and_eq_true]
+    constructor
+    · rintro ⟨⟨⟨⟨⟨h1, h2⟩, h3⟩, h4⟩, h5⟩, ⟨h6, h7⟩, h8⟩
+      exact ⟨h1, h2, h3, h4, h5, h6, h7, h8⟩
+    · rintro ⟨h1, h2, h3, h4, h5, h6, h7, h8⟩
+      exact ⟨⟨⟨⟨⟨h1, h2⟩, h3⟩, h4⟩, h5⟩, ⟨h6, h7⟩, h8⟩
+  · intro v n hn hne
+    have : critOK v.scopeName (scopeAttrs i.scope).1 = false := by simp [critOK, hn, hne]
+    simp [View.matches, View.scopeOK, this]
+  · intro hno
+    have hf : (views.filter fun v => v.matches j i) = [] := by
+      apply List.filter_eq_nil_iff.mpr
+      intro v hv; simp [hno v hv]
+    have heq : insertInstrument L views j i S = insertInstrument L [] j i S := by
+      rw [insertInstrument_filter, hf]
+    refine ⟨heq, ?_⟩
+    intro hnew
+    rw [heq]
+    simp [insertInstrument, resolveViews, cachedAggregator, incompatible, hnew]
+    split <;> rfl
+
 /-- A reader's collection is stream-wise: every stream of the pipeline is collected independently by
 `StreamSt.collect` (the step the stream theorems above are about), and the collection's metrics are exactly the
 non-empty reports of the streams that have an aggregate function, in creation order, under the first-seen name. -/
@@ -354,7 +439,7 @@ theorem collection_is_per_stream (tp : Temporality) (t : Nat) (ss : List StreamS
         match s.agg with
         | none => none
         | some g => if (s.collect tp t).2.isEmpty then none
-                    else some { name := s.name, float := s.float, dt := g.dt, pts := (s.collect tp t).2 } :=
+                    else some { scope := s.scope, name := s.name, float := s.float, dt := g.dt, pts := (s.collect tp t).2 } :=
   ⟨collectStreams_states tp t ss, collectStreams_metrics tp t ss⟩
 
 /-! ## non-vacuity: concrete, non-trivial instances -/
@@ -377,7 +462,7 @@ example : ((Agg.sum { limit := 2 }).runSteps .cumulative [.meas 0 1, .meas 7 2, 
     [[(0, .num 7)]] := by decide
 example : code ovfSet = 0 ∧ code [(1, 2)] ≠ code [(1, 3)] := by decide
 /-- filter keeping key 1 only: {a=0,b=0} and {a=0,b=1} become the same set and are added together -/
-example : (({ key := (.inst 0, .counter, false), name := .inst 0, float := false,
+example : (({ key := (.inst 0, .counter, false, 0, 0, 0), name := .inst 0, float := false,
               filter := some { deny := false, keys := [1] }, agg := some (.sum {}) } : StreamSt).runSteps .delta
       [.meas [(1, 2), (2, 2)] 1, .meas [(1, 2), (2, 3)] 2, .meas [(1, 3)] 4, .col 1]).2 =
     [[(code [(1, 2)], .num 3), (code [(1, 3)], .num 4)]] := by decide
@@ -419,5 +504,31 @@ example :
       [{ float := false, kind := .counter }] [.meas 0 [(1, 2)] 5, .col 0]
     (sys.pipes.map (·.meas)) = [[[0]]] ∧
     sys.recs.map (fun rc => rc.2.map (·.pts)) = [[[(code [(1, 2)], .num 5)]]] := by decide
+
+
+/-- two streams (default name and renamed "r0") of one counter: stream 1 sees the same two measurements in either
+global order of two further operations on ANOTHER instrument, and is left in the same state -/
+example :
+    let p := (Sys.init 2 [.delta]
+      [{ pat := .exact 0, kind := none, rename := none, filter := none, agg := none },
+       { pat := .exact 0, kind := none, rename := some (0, false), filter := none, agg := none }]
+      [{ float := false, kind := .counter }, { float := false, kind := .counter }]).pipes
+    p.map (·.meas) = [[[0, 1], [2]]] ∧
+    (p.map fun q => ((([(0, [(1, 2)], 1), (1, [(1, 3)], 2), (0, [(1, 4)], 4)] : List (Nat × CSet × Int)).foldl
+        (fun q o => q.measure o.1 o.2.1 o.2.2) q).streams[1]?).map (·.agg.map (·.keys))) =
+    (p.map fun q => ((([(1, [(1, 3)], 2), (0, [(1, 2)], 1), (0, [(1, 4)], 4)] : List (Nat × CSet × Int)).foldl
+        (fun q o => q.measure o.1 o.2.1 o.2.2) q).streams[1]?).map (·.agg.map (·.keys))) := by decide
+
+
+/-- a scoped wildcard Drop view ("*" with scope name "lib2"): it matches the instrument of meter 3 (lib2) and not
+the instrument of the same name of meter 1 (lib1), which keeps its default stream -/
+example :
+    let v : View := { pat := .star, kind := none, rename := none, filter := none, agg := some .drop,
+                      scopeName := some 3 }
+    v.matches 0 { float := false, kind := .counter, scope := 3, name := some 0 } = true ∧
+    v.matches 0 { float := false, kind := .counter, scope := 1, name := some 0 } = false ∧
+    ((Sys.init 0 [.delta] [v] [{ float := false, kind := .counter, scope := 3, name := some 0 },
+                               { float := false, kind := .counter, scope := 1, name := some 0 }]).pipes.map (·.meas))
+      = [[[], [1]]] := by decide
 
 end Otel.C12
